@@ -403,6 +403,15 @@ pub static OPS: &[Op] = &[
         let same = match back { Ok(b) => b.duration.to_parts() == e.duration.to_parts() && b.time_scale == e.time_scale, Err(_) => false };
         (if valid && same { "ok".to_string() } else { format!("fields {:?} valid={} rebuilds_identical={}", (y, mo, d, h, mi, s, ns), valid, same) }, "ok".to_string())
     }},
+    Op { name: "epoch_year_accessors", sig: &[Ty::I32, Ty::U8, Ty::Bool, Ty::Ts], pre: |a| a[0].int().abs() <= 30_000, f: |a| {
+        // the accessors agree with the fields in the epoch's OWN scale, in particular within a minute of a new year
+        let y = a[0].int();
+        let s = a[1].int() % 60;
+        let e = if a[2].boolean() { Epoch::maybe_from_gregorian(y as i32, 12, 31, 23, 59, s as u8, 999_999_999, a[3].ts()) } else { Epoch::maybe_from_gregorian(y as i32, 1, 1, 0, 0, s as u8, 1, a[3].ts()) }.unwrap();
+        let in_year = if a[2].boolean() { (day_index(y, 12, 31) - day_index(y, 1, 1)) * DAY_NS + (23 * 3600 + 59 * 60 + s) * 1_000_000_000 + 999_999_999 } else { s * 1_000_000_000 + 1 };
+        (format!("{} {:?} {}", e.year(), e.month_name(), show_d(e.duration_in_year())),
+         format!("{} {} {}", y, if a[2].boolean() { "December" } else { "January" }, show_total(in_year)))
+    }},
     Op { name: "gregorian_build", sig: &[Ty::I32, Ty::U8, Ty::U8, Ty::U8, Ty::U8, Ty::U8, Ty::U32, Ty::Ts], pre: |a| {
         a[0].int().abs() <= 100_000 && strict_valid(a[0].int(), a[1].int(), a[2].int(), a[3].int(), a[4].int(), a[5].int(), a[6].int()) && a[5].int() < 60
     }, f: |a| {
@@ -460,6 +469,46 @@ pub static OPS: &[Op] = &[
             u + offset_at_utc_ns(u) * s == t
         };
         (if ok { "ok".to_string() } else { format!("TAI {} -> UTC {} (offset there {} s)", t, u, offset_at_utc_ns(u)) }, "ok".to_string())
+    }},
+    Op { name: "weekday_algebra", sig: &[Ty::Wd, Ty::U8, Ty::I8, Ty::Wd], pre: always, f: |a| {
+        let (w, n, i, w2) = (a[0].wd(), a[1].int() as u8, a[2].int() as i8, a[3].wd());
+        let ix = |x: hifitime::Weekday| u8::from(x) as i128;
+        let mut x = w; x += n;
+        let mut y = w; y -= n;
+        let d = (w - w2).to_parts();
+        (format!("{} {} {} {} {} {} {} {:?}", ix(w + n), ix(w - n), ix(x), ix(y), ix(hifitime::Weekday::from(n)), ix(hifitime::Weekday::from(i)), ix(w + w2), d),
+         format!("{} {} {} {} {} {} {} {:?}", (ix(w) + n as i128) % 7, (ix(w) - n as i128).rem_euclid(7), (ix(w) + n as i128) % 7, (ix(w) - n as i128).rem_euclid(7),
+                 n as i128 % 7, (i as i128).rem_euclid(7), (ix(w) + ix(w2)) % 7, (0i16, ((ix(w2) - ix(w)).rem_euclid(7) * DAY_NS) as u64)))
+    }},
+    Op { name: "epoch_weekday_utc", sig: &[Ty::Dur, Ty::Bool], pre: |a| a[0].total().abs() < 1000 * NPC, f: |a| {
+        // weekday_utc: day number of the UTC count; for a TAI epoch the UTC count u with u + offset(u) = t (outside inserted seconds)
+        if a[1].boolean() {
+            let e = Epoch::from_duration(a[0].dur(), TimeScale::UTC);
+            (format!("{:?}", e.weekday_utc()), format!("{:?}", hifitime::Weekday::from(a[0].total().div_euclid(DAY_NS).rem_euclid(7) as u8)))
+        } else {
+            let t = a[0].total();
+            let s = 1_000_000_000;
+            let inside = leap_table().iter().enumerate().any(|(i, (ts, d))| { let prev = if i == 0 { 0 } else { d - 1 }; t >= (ts + prev) * s && t < (ts + d) * s });
+            if inside { return ("skip".into(), "skip".into()); }
+            // solve u + offset(u) = t
+            let mut u = t;
+            for (ts, d) in leap_table() { if t - d * s >= ts * s { u = t - d * s; } }
+            let e = Epoch::from_duration(a[0].dur(), TimeScale::TAI);
+            (format!("{:?}", e.weekday_utc()), format!("{:?}", hifitime::Weekday::from(u.div_euclid(DAY_NS).rem_euclid(7) as u8)))
+        }
+    }},
+    Op { name: "leap_file_provider", sig: &[Ty::Dur, Ty::Bool], pre: |a| a[0].total().abs() < 1000 * NPC, f: |a| {
+        // a provider loaded from the IERS-format file shipped with the sources answers like the built-in table
+        let path = concat!(env!("CARGO_MANIFEST_DIR"), "/../../repo/data/leap-seconds.list");
+        let path = if std::path::Path::new(path).exists() { path.to_string() } else { "/repo/data/leap-seconds.list".to_string() };
+        let file = hifitime::leap_seconds::LeapSecondsFile::from_path(&path).expect("leap-seconds.list");
+        let e = Epoch::from_duration(a[0].dur(), TimeScale::TAI);
+        let rows_fwd: Vec<(u64, u64)> = file.clone().map(|l| (l.timestamp_tai_s as u64, l.delta_at as u64)).collect();
+        let mut rows_rev: Vec<(u64, u64)> = file.clone().rev().map(|l| (l.timestamp_tai_s as u64, l.delta_at as u64)).collect();
+        rows_rev.reverse();
+        let want: Vec<(u64, u64)> = leap_table().iter().map(|(t, d)| (*t as u64, *d as u64)).collect();
+        (format!("{:?} fwd={} rev={}", e.leap_seconds_with(a[1].boolean(), file), rows_fwd == want, rows_rev == want),
+         format!("{:?} fwd=true rev=true", if a[1].boolean() { e.leap_seconds(true) } else { e.leap_seconds(true) }))
     }},
     // ---------------------------------------------------------------- C16 weekdays of epochs
     Op { name: "epoch_weekday", sig: &[Ty::Dur, Ty::UTs], pre: |a| conv_ok(a[0].total(), a[1].ts(), TimeScale::TAI), f: |a| {
